@@ -17,7 +17,7 @@ var (
 	genUnsafeEls = []string{"script", "style"}
 	genRawEls    = []string{"textarea", "xmp"}
 	genForeign   = []string{"svg", "math"}
-	genPats      = []string{"^custom-", "^x-", "^h[1-6]$", "^(em|font)$"}
+	genPats      = []string{"^custom-", "^x-", "^h[1-6]$", "^(em|font)$", "^(ob|if)", "-x$"}
 	genAttrKeys  = []string{"href", "src", "cite", "class", "id", "title", "rel", "target", "alt", "width", "style", "dir", "lang", "onclick", "data-x", "data-xml1", "data-a;b", "crossorigin", "sandbox", "type", "value", "open", "name"}
 	genAttrRes   = []string{`^[a-z]+$`, `^[0-9]+%?$`, `(?i)^(rtl|ltr)$`, `^[\p{L}\p{N}\s\-_',\[\]!\./\\\(\)]*$`, `k`, `^$`, `^.{0,12}$`}
 
@@ -160,7 +160,7 @@ func GenRecipe(r *rand.Rand, o GenOpts) Recipe {
 			add(Call{M: "AddSpaceWhenStrippingTag", B: r.Intn(4) != 0})
 		case 11:
 			if r.Intn(2) == 0 {
-				add(Call{M: "SkipElementsContent", Names: maybeUpper(r, pickN(r, append(append([]string{}, genOtherEls[:7]...), "b", "div", "textarea"), 2))})
+				add(Call{M: "SkipElementsContent", Names: maybeUpper(r, pickN(r, append(append(append([]string{}, genOtherEls[:7]...), genPatEls...), "b", "div", "textarea"), 2))})
 			} else {
 				add(Call{M: "AllowElementsContent", Names: maybeUpper(r, pickN(r, append(append([]string{}, genSkipEls...), genUnsafeEls...), 3))})
 			}
